@@ -1,4 +1,5 @@
 SPECIFICATION Spec
+CONSTANT OtherComps = {"lz4", "snappy", "Snappy", "zstd", "none", "lZ4 "}
 CONSTANT StrVals = {"", "a", "b"}
 INVARIANTS TypeOK CqlVersionKept
 PROPERTIES SetGet Frame
